@@ -75,7 +75,7 @@ def program_case(draw, max_clients=4, max_calls=4):
             init[k] = ('B', 255 if k == 'x' else 254, 100)
     if draw(st.booleans()):
         init['n'] = ('i', 10)
-    schedule = draw(st.lists(st.tuples(st.integers(0, n - 1), st.integers(1, 10)), max_size=14))
+    schedule = draw(st.lists(st.tuples(st.integers(0, n - 1), st.one_of(st.integers(1, 10), st.sampled_from([14, 20, 30, 50]))), max_size=14))
     return {
         'mode': draw(st.sampled_from(['own', 'own', 'shared'])),
         'statistics': draw(st.booleans()),
